@@ -39,7 +39,7 @@ type ServiceSpec struct {
 
 // Action is one step of a handler script.
 type Action struct {
-	// Op: reply | error | builtin | fail | sleep | rawread | rawwrite
+	// Op: reply | error | builtin | fail | sleep | shutdown | hold | rawread | rawwrite
 	Op        string `json:"op"`
 	Continues bool   `json:"continues,omitempty"`
 	// Params is the JSON text of the parameters ("" = nil interface).
@@ -158,6 +158,7 @@ func (c *ClientSpec) stream() []byte {
 type testIface struct {
 	spec    IfaceSpec
 	scripts map[int]Script
+	svc     *varlink.Service
 }
 
 func (d *testIface) VarlinkGetName() string        { return d.spec.Name }
@@ -235,6 +236,12 @@ func (d *testIface) VarlinkDispatch(ctx context.Context, c varlink.Call, methodn
 			sim.Rec("h.act", sf(`{"cid":%d,"i":%d,"op":"builtin","err":%q}`, cid, i, errStr(err)))
 		case "sleep":
 			sim.Sleep(time.Duration(a.N) * time.Microsecond)
+		case "shutdown":
+			// a method that asks the service to stop ("Quit"): the connection it came
+			// in on is served to its end like any other
+			sim.Rec("shutdown.call", "handler")
+			err := d.svc.Shutdown()
+			sim.Rec("shutdown.return", describeErr(err))
 		case "fail":
 			// any error ends the connection, whatever its kind
 			switch a.Name {
@@ -279,9 +286,19 @@ func buildService(spec ServiceSpec, scripts map[int]Script) (*varlink.Service, [
 	}
 	var errs []error
 	for _, is := range spec.Ifaces {
-		errs = append(errs, svc.RegisterInterface(&testIface{spec: is, scripts: scripts}))
+		errs = append(errs, svc.RegisterInterface(&testIface{spec: is, scripts: scripts, svc: svc}))
 	}
 	return svc, errs
+}
+
+// reportRegErrs: the interfaces of a scenario have distinct names and are
+// registered on a service that has never served: a refusal is a finding.
+func reportRegErrs(k *sim.Kernel, spec ServiceSpec, errs []error) {
+	for i, err := range errs {
+		if err != nil {
+			k.Violate("registration", "fresh-name-refused", sf("RegisterInterface(%q) on a new service was refused: %v", spec.Ifaces[i].Name, err))
+		}
+	}
 }
 
 func splitAddr(address string) (string, string) {
